@@ -134,18 +134,26 @@ func c09RunCounterCase(r *vrt.Run, c c09CntCase) (fs []vrt.Finding) {
 
 func TestVerifC09Counter(t *testing.T) {
 	r := vrt.Start("C09")
-	maxLen := vrt.Pick(r, 7, 10)
-	ivls := vrt.Pick(r, []int64{int64(time.Second)}, []int64{int64(time.Second), 7})
-	r.Bound("counter_gaps_per_sequence", maxLen)
+	// (interval, gaps per sequence) pairs.
+	type ivlLen struct {
+		ivl  int64
+		gaps int
+	}
+	plans := vrt.Pick(r,
+		[]ivlLen{{int64(time.Second), 7}},
+		[]ivlLen{{int64(time.Second), 10}, {7, 8}},
+	)
+	for _, p := range plans {
+		r.Bound(fmt.Sprintf("counter_gaps_per_sequence_ivl_%s", time.Duration(p.ivl)), p.gaps)
+	}
 	r.Bound("counter_n", "0..3")
 	r.Bound("counter_gap_alphabet", c09GapNames)
-	r.Bound("counter_intervals_ns", ivls)
 	plen := 4
 	vrt.Part(r, "counter", func(emit func(c09CntCase)) {
-		for _, ivl := range ivls {
+		for _, p := range plans {
 			for n := uint(0); n <= 3; n++ {
-				vrt.Sequences(len(c09GapNames), plen-1, plen-1, func(p []int) {
-					emit(c09CntCase{N: n, IvlNs: ivl, Len: maxLen + 1, Prefix: append([]int{0}, p...)})
+				vrt.Sequences(len(c09GapNames), plen-1, plen-1, func(pre []int) {
+					emit(c09CntCase{N: n, IvlNs: p.ivl, Len: p.gaps + 1, Prefix: append([]int{0}, pre...)})
 				})
 			}
 		}
